@@ -777,6 +777,10 @@ fn handle_multiline_string(lexer: &mut Lexer, ctx: &mut StaticsContext, file_id:
             MultilineStringGetlineResult::Empty(_, _) => {}
         }
     }
+    if indent == usize::MAX {
+        // no line to measure (all lines after the first are blank): nothing to strip
+        indent = 0;
+    }
     let mut string_val = "".to_string();
     for (i, line) in lines.iter().enumerate() {
         let begin = line.begin();
